@@ -8,6 +8,7 @@ VERIF = Path(__file__).resolve().parent.parent
 ALL = [f"C{i:02d}" for i in range(1, 21)]
 
 SQL = "TLA+ spec SqlProgram (TLC exhaustive: table contents x call histories through the modelled Select machine) + replay of every TLC state into the real SQL engine and SQLite (both scan orders) + real trees judged by TLC (TraceTree)"
+MULTI = "TLA+ spec MultiEngine (TLC exhaustive: source engine x contents x call histories x every preferred-engine option combination) + replay into real SQL/iteration engines through a real SQLite<->iteration Processor + real trees judged by TLC (TraceTree)"
 ITER = "TLA+ spec IterProgram (TLC exhaustive: leaf contents x call histories) + replay of every TLC state into the real iteration engine + real trees judged by TLC (TraceTree)"
 CHECKS = {
     "C01": dict(
@@ -69,6 +70,18 @@ CHECKS = {
         text="Conform(rel) = rel and MarkerCoherent(rel) are invariants of SqlProgram (TLC); the replay checks engine.conform(rel) is rel and the is_compound flag on every real Select, and hands the real tree to TLC, which re-derives each marker's target from its recorded slots and skip target and compares (TraceTree clause coh).",
         design_ref="§6 C17",
         note="raw bottom-up trees (conform of arbitrary trees) are added in a later round",
+    ),
+    "C03": dict(
+        technique=MULTI,
+        text="TLC enumerates trees with the source leaf in the SQL engine or an iteration engine, up to 2 (quick) / 3 (thorough) default-option calls (8 operations, transfers to each of three engines incl. round trips and self-transfers, materializations), then ONE final operation out of 6-16 (calculation, projections incl. ones that drop columns needed downstream, selections, deduplication, sorts, slices) with all 24 combinations of preferred engine x backtrack x transfer x require_preferred_engine, and joins with a SQL leaf under every backtrack/transfer combination. On the code-shaped apply/backtrack/commute/transfer rules TLC proves: content equals the naive application (list or bag, as determined), columns equal, no ColumnError from placement (NoPlacementColumnError), transfer=>result in the preferred engine unless backtracking fully succeeded, require=>no operation added outside it. Every state is replayed through the real API, processed by a real Processor (SQLite temp tables <-> RowSequence) and executed; rows, columns, engine and operation counts per engine are compared with TLC's oracle.",
+        design_ref="§6 C03",
+        note="open findings F2 (projection past deduplication, pinned by a repository test) and F8 (SQL materialization after a transfer) are excluded by matcher+signature and reported as KNOWN-FINDING; a companion configuration proves the F2 class still violates",
+    ),
+    "C15": dict(
+        technique=MULTI,
+        text="In MultiEngine TLC checks as action properties that every transfer lands in the requested engine (incl. A->B->A and A->B->C->A round trips across unlocked markers, which keep content by ContentKept), that no-op transfers/materializations return the relation itself, and LockedKept: every materialization node of the old tree that occurs in the new tree occurs unchanged (nothing inserted upstream) for every call with every option combination. The replay checks the same on real objects: engine of the result, number of materializations, and that Materialization objects of the input tree reappear as the IDENTICAL objects.",
+        design_ref="§6 C15",
+        note="three engines (one SQL, two iteration); locked nodes are materializations and leaves",
     ),
     "C04": dict(
         technique="TLA+ spec OpPairs (TLC exhaustive over operation pairs x targets) + real commute() answers judged by TLC (TracePairs)",
